@@ -61,6 +61,8 @@ def vtBeh (plugin : Str) (command rest : List Str) : Act :=
   match name.head? with
   | some 'r' | some 'b' | some 'v' | some 'l' | some 'h' => ⟨false, .reply text⟩
   | some 'n' => ⟨false, .noReply⟩
+  | some 'o' => ⟨false, .reply []⟩
+  | some 'w' => ⟨false, .reply (txt "  ")⟩
   | some 'e' => ⟨false, .error (txt "E:" ++ name)⟩
   | some 's' => ⟨false, .silent⟩
   | some 'i' => ⟨true, .noReply⟩
